@@ -230,6 +230,41 @@ func c11Check(c c11Case) (v vcase.Verdict) {
 			}
 		}
 	}
+	// The test looks at the order of the values only: with the largest pooled value replaced by
+	// +Inf and the smallest by -Inf (an order-preserving change) every result is the same.
+	{
+		lo, hi := math.Inf(1), math.Inf(-1)
+		for _, x := range append(append([]float64(nil), c.X1...), c.X2...) {
+			lo, hi = math.Min(lo, x), math.Max(hi, x)
+		}
+		stretch := func(xs []float64) []float64 {
+			ys := append([]float64(nil), xs...)
+			for i, y := range ys {
+				switch y {
+				case hi:
+					ys[i] = math.Inf(1)
+				case lo:
+					ys[i] = math.Inf(-1)
+				}
+			}
+			return ys
+		}
+		if lo < hi {
+			y1, y2 := stretch(c.X1), stretch(c.X2)
+			for i, alt := range []LocationHypothesis{LocationLess, LocationDiffers, LocationGreater} {
+				r, err := MannWhitneyUTest(y1, y2, alt)
+				if err != nil || r == nil {
+					v.Failf("MannWhitneyUTest(%v, %v, %d) (extreme values made infinite): error %v", y1, y2, alt, err)
+					return
+				}
+				if r.U != keptCopy[i].U || !(c11close(r.P, keptCopy[i].P) || math.Abs(r.P-keptCopy[i].P) <= 1e-12) {
+					v.Failf("MannWhitneyUTest(%v, %v, alt=%d): U=%v P=%v, but U=%v P=%v for %v, %v, which are in the same order", y1, y2, alt, r.U, r.P, keptCopy[i].U, keptCopy[i].P, c.X1, c.X2)
+					return
+				}
+			}
+			v.Label("infinite_extremes")
+		}
+	}
 	for i := range x1c {
 		if x1c[i] != c.X1[i] {
 			v.Failf("input sample modified")
